@@ -129,12 +129,17 @@ func cholesky_ldl_forcepd(A ConstMatrix, L, D Matrix, s, t Scalar) (Matrix, Matr
       }
     }
     // compute d_j = max(|c_jj|, (theta_j/beta)^2, delta)
+    d_j := delta
     if j != n-1 {
-      D.At(j,j).SetFloat64(
-        math.Max(math.Max(math.Abs(c_jj.GetFloat64()), math.Pow((theta/beta), 2.0)), delta))
+      d_j = math.Max(math.Pow((theta/beta), 2.0), delta)
+    }
+    if r := math.Abs(c_jj.GetFloat64()); r < d_j {
+      D.At(j,j).SetFloat64(d_j)
     } else {
-      D.At(j,j).SetFloat64(
-        math.Max(math.Abs(c_jj.GetFloat64()), delta))
+      // d_j = |c_jj|: keep c_jj, which carries the derivatives
+      if c_jj.GetFloat64() < 0.0 {
+        c_jj.Neg(c_jj)
+      }
     }
     // compute l_ij = c_ij/d_j
     for i := j+1; i < n; i++ {
